@@ -1,5 +1,6 @@
 import GoLucene.Proofs.SqlMeaning
 import GoLucene.Proofs.SqlText
+import GoLucene.Proofs.SqlQuery
 /-
   C03 — inline SQL selects exactly the rows the query means (the structure theorem).
 
@@ -43,5 +44,14 @@ theorem rendered_text_selects_what_the_query_means (e : Expr) (t : Bytes) (hc : 
     (ht : textClean e = true) (hd : SqlText.depthOK e = true) (hr : render pgFns e = .ok t) (row : Row) :
     (Sql.parseSql t).bind (evalSql row) = evalL row e :=
   SqlText.rendered_sql_means_query' e t hc ht hd hr row
+
+/-- OVER QUERIES: for every accepted query whose tree is in the clean filter fragment, whenever ToPostgres' renderer
+    succeeds, PostgreSQL's reading of the SQL text is true on exactly the rows on which the query is true (the
+    renderability of the texts is derived from the success of the renderer) -/
+theorem accepted_query_sql_selects_what_it_means (env : Env) (s df : Bytes) (e : Expr) (t : Bytes)
+    (h : parseQuery env s df = .ok e) (hc : cleanFilter e = true) (hr : render pgFns e = .ok t)
+    (hd : SqlText.depthOK e = true) (row : Row) :
+    (Sql.parseSql t).bind (evalSql row) = evalL row e :=
+  SqlQuery.query_sql_means_query env s df e t h hc hr hd row
 
 end GoLucene.C03
